@@ -210,6 +210,12 @@ static bool decode_escape_sequence(const char** ptr, const char* end, char** out
  * Returns: Null-terminated decoded string, or NULL on invalid escape.
  */
 char* edn_decode_string(edn_arena_t* arena, const char* data, size_t length) {
+    return edn_decode_string_n(arena, data, length, NULL);
+}
+
+/* Same, and also reports the number of decoded bytes (which may include NUL) */
+char* edn_decode_string_n(edn_arena_t* arena, const char* data, size_t length,
+                          size_t* out_length) {
     char* decoded = edn_arena_alloc(arena, length + 1);
     if (!decoded) {
         return NULL;
@@ -231,6 +237,9 @@ char* edn_decode_string(edn_arena_t* arena, const char* data, size_t length) {
     }
 
     *out = '\0';
+    if (out_length) {
+        *out_length = (size_t) (out - decoded);
+    }
     return decoded;
 }
 
@@ -748,6 +757,7 @@ edn_value_t* edn_parse_text_block(edn_parser_t* parser) {
     edn_string_set_length(value, total_len);
     edn_string_set_has_escapes(value, any_escapes);
     value->as.string.decoded = result; /* Text blocks are already decoded */
+    value->as.string.decoded_length = (size_t) (dst - result);
     value->arena = parser->arena;
 
     return value;
